@@ -167,19 +167,29 @@ def _replay_sum(wa, wb, use_static, sync=False, I=None, what=''):
     from symx.replay import call_real
 
     def rp(md):
-        pt = model_point(md)
-        r = call_real([real_call(wa, pt, use_static, sync=sync, I=I), real_call(wb, pt, use_static, sync=sync, I=I)])
-        if not all(x['ok'] for x in r):
-            return True, 'real call raised: %r' % [x.get('error') for x in r]
-        sums = []
-        for x in r:
-            tot = [0.0] * 6
-            for mode in x['value'][2]:
-                t = _tuple_of(x['value'], mode)
-                tot = [a + b for a, b in zip(tot, t)]
-            sums.append(tot)
-        worst = max(abs(a - b) / (abs(a) + abs(b) + 1e-300) for a, b in zip(*sums))
-        return worst > 1e-9, '%s: sum over modes of %s = %r ; %s = %r at %r' % (what, wa, sums[0], wb, sums[1], pt)
+        pts = [model_point(md)]
+        # second candidate: the model's own n and spin (they matter when a mode switch |mode| > MIN_SPIN_ORBITAL_DIFF is what differs), generic phases
+        if md.get('n') is not None and md.get('o') is not None:
+            p2 = dict(pts[0])
+            p2['n'], p2['o'], p2['t'] = float(md['n']), float(md['o']), 1.0
+            pts.append(p2)
+        last = None
+        for pt in pts:
+            r = call_real([real_call(wa, pt, use_static, sync=sync, I=I), real_call(wb, pt, use_static, sync=sync, I=I)])
+            if not all(x['ok'] for x in r):
+                return True, 'real call raised: %r' % [x.get('error') for x in r]
+            sums = []
+            for x in r:
+                tot = [0.0] * 6
+                for mode in x['value'][2]:
+                    t = _tuple_of(x['value'], mode)
+                    tot = [a + b for a, b in zip(tot, t)]
+                sums.append(tot)
+            worst = max(abs(a - b) / (abs(a) + abs(b) + 1e-300) for a, b in zip(*sums))
+            last = '%s: sum over modes of %s = %r ; %s = %r at %r' % (what, wa, sums[0], wb, sums[1], pt)
+            if worst > 1e-9:
+                return True, last
+        return False, last
     return rp
 
 
